@@ -200,7 +200,10 @@ def plan(tier, seed):
                  ('mix-dn-rel', 'release', 'cache_trace', ['gen', str(seed + 8), '150', '50', 'mix', 'dn']),
                  ('exh2-dbg', 'debug', 'cache_trace', ['exhaust', '2', '0', '1']),
                  ('panic-dbg', 'debug', 'panic_trace', [str(seed), '10', '6', '16']),
-                 ('panic-rel', 'release', 'panic_trace', [str(seed + 1), '14', '9', '16'])]
+                 ('panic-rel', 'release', 'panic_trace', [str(seed + 1), '14', '9', '16']),
+                 ('panic-pd-rel', 'release', 'panic_trace', [str(seed + 2), '4', '7', '12', 'pd']),
+                 ('panic-dp-rel', 'release', 'panic_trace', [str(seed + 3), '4', '7', '12', 'dp']),
+                 ('panic-dn-dbg', 'debug', 'panic_trace', [str(seed + 4), '4', '7', '12', 'dn'])]
     else:
         jobs += [('exh3-h0-rel', 'release', 'cache_trace', ['exhaust', '3', '0', '0']), ('exh3-h1-rel', 'release', 'cache_trace', ['exhaust', '3', '0', '1']),
                  ('exh4-h0-rel', 'release', 'cache_trace', ['exhaust', '4', '1', '0']), ('exh4-h1-dbg', 'debug', 'cache_trace', ['exhaust', '4', '1', '1'])]
@@ -219,6 +222,7 @@ def plan(tier, seed):
             jobs.append(('churn-rel-%d' % i, 'release', 'cache_trace', ['gen', str(seed * 100 + 70 + i), '200', '800', 'churn']))
             jobs.append(('panic-rel-%d' % i, 'release', 'panic_trace', [str(seed * 100 + 80 + i), '120', '10', '40']))
             jobs.append(('panic-dbg-%d' % i, 'debug', 'panic_trace', [str(seed * 100 + 90 + i), '60', '8', '40']))
+            jobs.append(('panic-%s-rel-%d' % (('pd', 'dp', 'dn', 'pd')[i], i), 'release', 'panic_trace', [str(seed * 100 + 85 + i), '40', '8', '30', ('pd', 'dp', 'dn', 'pd')[i]]))
     return jobs
 
 def run_job(job, rundir, variant='fixed'):
